@@ -14,7 +14,7 @@ CLAIMED = {
     "C12": ("E1 kani-cbmc", "4 C12",
             "Bounded model checking of Ord::cmp against an independent exact reference of Erlang's term order (integer-arithmetic "
             "int-vs-float comparison, type-rank table, bit-wise bit-strings, cons-cell lists) for all values of each shape pair. E2: the MIR of "
-            "<OwnedTerm as Ord>::cmp on tuples and lists of 0..3 integers (thorough 4; CBMC runs out of memory on 2-element containers): size first "
+            "<OwnedTerm as Ord>::cmp on tuples and lists of 0..4 integers (thorough 7; CBMC runs out of memory on 2-element containers): size first "
             "then element-wise for tuples, element-wise then length for lists, all i64 elements.",
             "kani+cbmc differential check against a reference order, counterexamples replayed natively; MIR->SMT for wider tuples/lists"),
     "C20": ("E1 kani-cbmc", "4 C20",
